@@ -376,6 +376,27 @@ func (p *sparser) postfix(e *SExpr) *SExpr {
 				p.expect("]")
 				e = &SExpr{Kind: "idx", Args: []*SExpr{e, lo}}
 			}
+		case p.isOp("{") && (e.Kind == "id" || (e.Kind == "sel" && e.Args[0].Kind == "id")):
+			// composite literal of a struct type: T{f: e, ...}
+			p.next()
+			c := &SExpr{Kind: "complit", Args: []*SExpr{e}}
+			for !p.isOp("}") {
+				n := p.next()
+				if n.kind != "id" {
+					p.fail("field name expected in composite literal")
+				}
+				if !p.isOp(":") {
+					p.fail("':' expected in composite literal")
+				}
+				p.next()
+				c.Binds = append(c.Binds, SBind{Name: n.text})
+				c.Args = append(c.Args, p.expr(0))
+				if p.isOp(",") {
+					p.next()
+				}
+			}
+			p.next()
+			e = c
 		default:
 			return e
 		}
